@@ -38,6 +38,8 @@ def configs(tier, seed):
         out.append(dict(part='conv', x=list(x), shape=[]))
     for x in C.pick(conv, 10 if tier == 'quick' else 60, rng):
         out.append(dict(part='conv', x=list(x), shape=[2]))
+    for x in C.pick([q for q in conv if q[2] >= 1], 24 if tier == 'quick' else 150, rng):
+        out.append(dict(part='conv', x=list(x), shape=rng.choice(([], [], [2])), history=rng.choice(('raw', 'equal'))))
     return out
 
 
@@ -66,7 +68,18 @@ def _mk(F, fmt, vals, shape):
 def run(F, cfg, inp):
     shape = cfg.get('shape') or []
     n = 2 if shape else 1
-    x = _mk(F, cfg['x'], [inp['a%d' % i] for i in range(n)], shape)
+    if cfg.get('history'):
+        # an object with a past: born integer-valued (n_frac = 0), re-formatted, then written with a raw code (or element-wise)
+        sx_, nx_, fx_ = cfg['x']
+        x = F.Fxp([3, 1] if shape else 3, sx_, nx_ + 2, 0)
+        x.resize(sx_, nx_, fx_)
+        if cfg['history'] == 'raw':
+            x.set_val(C.mk_array(F, 'O' if nx_ >= 64 else ('int64' if sx_ else 'uint64'), [inp['a%d' % i] for i in range(n)], (2,)) if shape else inp['a0'], raw=True)
+        else:
+            src = _mk(F, cfg['x'], [inp['a%d' % i] for i in range(n)], shape)
+            x.equal(src)
+    else:
+        x = _mk(F, cfg['x'], [inp['a%d' % i] for i in range(n)], shape)
     if cfg['part'] == 'cmp':
         y = _mk(F, cfg['y'], [inp['b%d' % i] for i in range(n)], shape)
         return {op: O.snap(_PY[op](x, y)) for op in OPS}
@@ -78,13 +91,8 @@ def run(F, cfg, inp):
     ob = dict(get_val=O.snap(x.get_val()), as_float=O.snap(x.astype(float)), as_int=O.snap(x.astype(int)), raw=O.snap(x.raw()),
               uraw=O.snap(x.uraw()), call=O.snap(x()))
     if not shape:
-        if F.symbolic:
-            from sx import loader
-            ob.update(float_=loader.to_float(x.astype(float)), int_=loader.to_int(x.astype(int)))
-            t = x.get_val()
-            ob['bool_'] = (t != 0) if not hasattr(t, '_one') else (t._one() != 0)
-        else:
-            ob.update(float_=float(x), int_=int(x), bool_=bool(x))
+        # the methods behind float() / int() / bool(), called directly (on the lifted side they return terms, which the builtins would refuse)
+        ob.update(float_=type(x).__float__(x), int_=type(x).__int__(x), bool_=bool(x))
     return ob
 
 
